@@ -123,6 +123,11 @@ func ruleFMT(r *Run, p string, doGrammar, doCounts, doHeader, doErr, doMagic, do
 		if doErr {
 			ruleReadErrors(r, p+".FMT4", k)
 		}
+		if doCover {
+			ruleDecodedUsed(r, p+".FMT9", k)
+			ruleIterationRestores(r, p+".FMT10", k)
+			ruleRejections(r, p+".FMT11", k)
+		}
 		if doMagic {
 			wm, rm, wv, rv := magicAndVersion(w, k)
 			r.Check(wm != "" && wm == rm, p+".FMT5", k.Name+":magic", rsite, "magic "+wm+" written and required", fmt.Sprintf("writer magic %q, reader requires %q", wm, rm))
